@@ -110,7 +110,7 @@ func TestVerif_C02(t *testing.T) {
 		quick := c.Quick()
 		grid := c02Grid(!quick)
 		small := []c02Cfg{{4096, 2, 0}, {40, 2, 1}, {4096, 1, 2}, {0, 0, 5}}
-		c.Rule(fmt.Sprintf("inputs: (a) every byte string of length <=2 and every 3-byte string over a %d-byte boundary alphabet (thorough: additionally ALL 3-byte strings under the configuration table=4096 preload=2 maxstr=0, unsplit); (b) every sequence of 1..3 fragments of the representation-fragment alphabet (%d fragments; thorough: %d, plus all 4-sequences of the first 10), each also with its last fragment cut at every byte; every byte string of length 4 over a 10-byte (thorough: 12-byte) representation-aware alphabet (thorough: also length 5 under 4 configurations incl. one with a single preloaded entry); (c) integers with 1..11 continuation octets in every integer position (index, name index, table size, string lengths) in 4 fill patterns x 4 terminations x {nothing, one field} following. "+
+		c.Rule(fmt.Sprintf("inputs: (a) every byte string of length <=2 and every 3-byte string over a %d-byte boundary alphabet (thorough: additionally ALL 3-byte strings under the configuration table=4096 preload=2 maxstr=0, unsplit); (b) every sequence of 1..2 fragments of the %d-fragment representation alphabet and every 3-sequence of its first 14 (thorough: every 1..3-sequence of the %d-fragment wide alphabet plus all 4-sequences of the first 10), each also with its last fragment cut at every byte; every byte string of length 4 over a 10-byte (thorough: 12-byte) representation-aware alphabet (thorough: also length 5 under 4 configurations incl. one with a single preloaded entry); (c) integers with 1..11 continuation octets in every integer position (index, name index, table size, string lengths) in 4 fill patterns x 4 terminations x {nothing, one field} following. "+
 			"each input under every configuration of max string length {0,1,5} x table size {4096,40,0} x preloaded entries {2,0} (thorough: {0,1,2,5} x {4096,40,0,70} x {2,0}; here %d), as one block and as two blocks (Close in between) split at every interior position. non-trivial = input for which, in some configuration, the reference decoded at least one complete representation and the run was compared",
 			len(c02ByteAlphabet(quick)), len(c02Fragments(false)), len(c02Fragments(true)), len(grid)))
 		c.Assume("a table size update that follows a field representation in the same block is outside the compared domain: RFC 7541 §4.2 says where an encoder must put it but not what a decoder does otherwise (the implementation accepts it iff its table is empty); fields emitted before it are still compared")
@@ -189,11 +189,16 @@ func TestVerif_C02(t *testing.T) {
 			return true
 		}
 		vx.Enumerate(c, "fragments", vx.Opts{}, func(yield func(c02Case) bool) {
-			if !vx.Strings(c02Fragments(!quick), 1, 3, func(seq []c02Frag) bool { return genFragSeq(seq, yield) }) {
+			gen := func(seq []c02Frag) bool { return genFragSeq(seq, yield) }
+			if quick {
+				fr := c02Fragments(false)
+				if vx.Strings(fr, 1, 2, gen) {
+					vx.Strings(fr[:14], 3, 3, gen)
+				}
 				return
 			}
-			if !quick {
-				vx.Strings(c02Fragments(false)[:10], 4, 4, func(seq []c02Frag) bool { return genFragSeq(seq, yield) })
+			if vx.Strings(c02Fragments(true), 1, 3, gen) {
+				vx.Strings(c02Fragments(false)[:10], 4, 4, gen)
 			}
 		}, check)
 
@@ -281,17 +286,18 @@ func TestVerif_C02(t *testing.T) {
 // boundary, plus continuation, string-length and Huffman payload octets.
 func c02ByteAlphabet(quick bool) []byte {
 	a := []byte{
-		0x80, 0x81, 0xbd, 0xbe, 0xbf, 0xc0, 0xfe, 0xff, // indexed: 0, 1, 61, 62, 63, 64, 126, saturated
-		0x40, 0x41, 0x7d, 0x7e, 0x7f, // incremental: new name, 1, 61, 62, saturated
-		0x00, 0x01, 0x0e, 0x0f, // without indexing: new name, 1, 14, saturated
-		0x10, 0x11, 0x1f, // never indexed
-		0x20, 0x21, 0x3e, 0x3f, // table size 0, 1, 30, saturated
-		0x02, 0x03, 0x2f, 0x09, 0x29, // lengths / continuation values (0f 2f = 62, 3f 09 = 40, 3f 29 = 72)
+		0x80, 0x81, 0xbd, 0xbe, 0xbf, 0xc0, 0xff, // indexed: 0, 1, 61, 62, 63, 64, saturated
+		0x40, 0x41, 0x7e, 0x7f, // incremental: new name, 1, 62, saturated
+		0x00, 0x01, 0x0f, // without indexing: new name, 1, saturated
+		0x10, 0x1f, // never indexed
+		0x20, 0x3f, // table size 0, saturated
+		0x02, 0x2f, 0x09, 0x29, // lengths / continuation values (0f 2f = 62, 3f 09 = 40, 3f 29 = 72)
 		0x82, 0x83, 0x84, // Huffman string lengths
 		0x61, 0x1f, 0x07, 0xfc, // 'a', Huffman 'a'+padding, Huffman '0'+padding, 6 ones + 00
 		0x1e, 0x06, // Huffman 'a' / '0' followed by padding whose last bit is 0
 	}
 	if !quick {
+		a = append(a, 0xfe, 0x7d, 0x0e, 0x11, 0x21, 0x3e, 0x03) // indexed 126, name index 61 / 14, never-indexed 1, table size 1 / 30, length 3
 		for v := 0; v < 256; v += 8 {
 			a = append(a, byte(v+5))
 		}
